@@ -58,7 +58,7 @@ COVERS_H = [
 
 def cases(tier):
     out = []
-    ns = [1, 2, 3] if tier == "quick" else [1, 2, 3, 4]
+    ns = [1, 2, 3] if tier == "quick" else [1, 2, 3, 4, 5]
     for n in ns:
         for ph in (False, True):
             out.append(
@@ -212,7 +212,7 @@ META = {
         "phase-free and the general path are covered; the batched (GPU) matmul path is forced through is_cpu=False."
     ),
     "outside": [
-        "N > 3 for the Lindbladian and N > 4 for the Hamiltonian; more than 3 jump operators",
+        "N > 3 for the Lindbladian and N > 5 for the Hamiltonian; more than 3 jump operators",
         "floating-point rounding (the program is read over exact reals)",
     ],
     "assumptions": [
